@@ -10,6 +10,7 @@ import (
 	"fmt"
 	"io"
 	"log"
+	"math"
 	"net"
 	"os"
 	"slices"
@@ -377,15 +378,19 @@ func (s *Service) handleConn(conn net.Conn) {
 			return
 		}
 		sz := binary.LittleEndian.Uint64(b[0:])
+		if sz > math.MaxInt64 {
+			return
+		}
 
-		p := make([]byte, sz)
 		if s.connTimeout > 0 {
 			if err := conn.SetReadDeadline(time.Now().Add(s.connTimeout)); err != nil {
 				return
 			}
 		}
-		_, err = io.ReadFull(conn, p)
-		if err != nil {
+		// Read the message incrementally, so that memory is only allocated for
+		// data actually received, not for whatever length the peer announced.
+		p, err := io.ReadAll(io.LimitReader(conn, int64(sz)))
+		if err != nil || uint64(len(p)) != sz {
 			return
 		}
 
